@@ -5,7 +5,7 @@ use std::sync::Arc;
 use rpki::repository::tal::TalInfo;
 use rpki::repository::x509::Time;
 use rpki::resources::{Asn, Prefix};
-use rpki::rtr::payload::{Aspa, Payload, RouteOrigin, RouterKey};
+use rpki::rtr::payload::{Payload, RouteOrigin, RouterKey};
 use routinator::metrics::Metrics;
 use routinator::output::{Output, OutputFormat, Selection};
 use routinator::payload::{PayloadSnapshot, SharedHistory};
